@@ -98,6 +98,7 @@ type Datagram struct {
 	AvailAt    int64 // virtual ns: not receivable before
 	Consumed   bool
 	ConsumedBy int  // receive ordinal
+	Stray      bool // a sequence-0 NLMSG_ERROR that quotes the request in flight (no audit record, no reply)
 	Unexcused  bool // left unread by a call that had no reason to leave it (harness bookkeeping)
 }
 
@@ -215,19 +216,23 @@ func (k *Kernel) data(r *Request, typ uint16, flags uint16, payload []byte, kind
 
 // Unsolicited enqueues n audit records (sequence 0, mostly types 1100..1399), as the
 // kernel does for the registered audit daemon at any moment.
+// StrayErrno is the errno carried by the stray sequence-0 NLMSG_ERROR datagrams.
+const StrayErrno = 3999
+
 func (k *Kernel) Unsolicited(n int, avail int64) {
 	for i := 0; i < n; i++ {
 		k.unsolSeq++
 		if k.unsolSeq%8 == 5 && len(k.Ledger) > 0 {
 			// a sequence-0 datagram that is no audit record at all: an NLMSG_ERROR carrying
-			// EPERM and quoting the header of the request in flight (sequence 0 says
-			// "not a reply", whatever else the datagram looks like)
+			// errno StrayErrno and quoting the header of the request in flight. It is not a
+			// reply (sequence 0) and not an audit event either: a call may skip it or give
+			// up on it, it must not take its errno for the kernel's verdict.
 			if last := k.Ledger[len(k.Ledger)-1]; last.Seq != 0 && len(last.Wire) >= NlmsgHdrLen {
 				b := make([]byte, NlmsgHdrLen+4+NlmsgHdrLen)
 				hdr(b, uint32(len(b)), NlmsgError, 0, 0, 0)
-				le.PutUint32(b[NlmsgHdrLen:], 0xFFFFFFFF)
+				le.PutUint32(b[NlmsgHdrLen:], uint32(0x100000000-StrayErrno))
 				copy(b[NlmsgHdrLen+4:], last.Wire[:NlmsgHdrLen])
-				k.enqueue(&Datagram{Bytes: b, Req: -1, Kind: DUnsolicited, AvailAt: avail})
+				k.enqueue(&Datagram{Bytes: b, Req: -1, Kind: DUnsolicited, Stray: true, AvailAt: avail})
 				k.FiredUnsol++
 				continue
 			}
